@@ -23,7 +23,8 @@ RULE = (
     'past the end of the rain record, and every mask of missing interior '
     'samples up to the stated number; ET starting at or before the grid and '
     'ending at or after the closing instant; rows sorted, reversed or '
-    'rotated; zone UTC or Africa/Lagos.  Oracle = reference loader in '
+    'rotated; zone UTC, Africa/Lagos, or Europe/Amsterdam with the rainfall '
+    'record starting at a daylight-saving transition.  Oracle = reference loader in '
     'rational arithmetic written from the property statement.  A triple is '
     'a path of the generation tree (states = source samples placed, '
     'transitions = grid instants checked).  Non-trivial = the load is '
@@ -39,8 +40,12 @@ ASSUMPTIONS = [
 DT = 3600
 RATIOS = {'1': (1, 1), '1/2': (1, 2), '1/3': (1, 3), '2': (2, 1)}
 VARIANTS = [('sorted', 'UTC'), ('reversed', 'Africa/Lagos'),
-            ('rotated', 'UTC')]
+            ('rotated', 'UTC'), ('sorted', 'Europe/Amsterdam')]
 ZONE_OFFSET = {'UTC': 0, 'Africa/Lagos': 3600}
+# For the DST-observing zone the rainfall record starts at the instant of the
+# 2020 spring-forward transition (2020-03-29 01:00 UTC), so that an ET or
+# water-level file starting earlier begins on the other side of it
+T0_DST = 1585443600
 _GEOM = {}
 
 
@@ -52,7 +57,7 @@ def decoy():
 def BOUND(tier):
     return {
         'quick': 'rain n in 3..5; <=2 missing level samples; all level '
-                 'sample counts; 4 ET variants x 3 (row order, zone) '
+                 'sample counts; 4 ET variants x 4 (row order, zone) '
                  'variants; CLI: n=3, ratio 1',
         'thorough': 'rain n in 3..7; <=3 missing level samples; CLI: n<=4, '
                     'ratios 1 and 1/2',
@@ -121,7 +126,7 @@ def build(case):
     n = case['n']
     num, den = RATIOS[case['ratio']]
     lstep = DT * num // den
-    t0 = records.T0_DEFAULT
+    t0 = T0_DST if case['zone'] not in ZONE_OFFSET else records.T0_DEFAULT
     rain = [(t0 + k * DT, 0.5 + k) for k in range(n)]
     start = t0 + case['start_shift'] * DT + case['offset']
     level = [(start + j * lstep, 100.0 + 0.25 * j * j - 3.0 * j)
@@ -147,13 +152,23 @@ def reorder(rows, order):
 
 
 def texts(case, rain, et, level):
-    off = ZONE_OFFSET[case['zone']]
+    if case['zone'] in ZONE_OFFSET:
+        off = ZONE_OFFSET[case['zone']]
+
+        def text(t):
+            return records.stamp(t, off)
+    else:
+        import pytz
+        from mc.checks import c11
+        tz = pytz.timezone(case['zone'])
+
+        def text(t):
+            return c11.render(t, tz).strftime(records.FMT)
     out = []
     for header, rows in (('datetime,p', rain), ('datetime,e', et),
                          ('datetime,z', level)):
         out.append(records.csv_text(header, [
-            (records.stamp(t, off), v) for t, v in reorder(rows,
-                                                           case['order'])]))
+            (text(t), v) for t, v in reorder(rows, case['order'])]))
     return out
 
 
